@@ -22,7 +22,7 @@ RULE = ("every sequence of <= M shapes x dedup x sort; distinct = distinct (sequ
 ASSUMPTIONS = ["names are short enough for the PDB columns; residue numbers < 10000",
                "GRO is checked like PDB (it is a coordinate file written for the same system)"]
 
-SHAPES = ['P', 'P2', 'Q', 'R', 'N', 'K', 'S', 'X']
+SHAPES = ['P', 'P2', 'Q', 'R', 'N', 'K', 'S', 'X', 'Y']
 
 
 def make(shape, index):
@@ -64,8 +64,10 @@ def make(shape, index):
         mol.add_edge(base[2], base[3])
         mol.add_interaction('angles', (base[0], base[1], base[3]), ['2', '120', '50'])
     if shape == 'X':
-        # like P, plus trailing interactions that add no edge
+        # like P, plus one trailing interaction in an EXISTING category (adds no edge, no new category)
         mol.add_interaction('bonds', (base[0], base[2]), ['1', '0.5', '100'], meta={'edge': False})
+    if shape == 'Y':
+        # like P, plus an interaction in a new category
         mol.add_interaction('exclusions', (base[0], base[3]), [])
     return mol
 
